@@ -31,7 +31,7 @@ def jobs(tier, seed):
     for L in cklens:
         J.append(dict(name="custkey:allpos:L%d" % L, kind="custkey", L=L, positions="all", timeout=1200, cost=8 * L))
     for L in ([] if tier == "quick" else [48, 61, 100, 253]):
-        J.append(dict(name="custkey:boundarypos:L%d" % L, kind="custkey", L=L, positions="boundary", timeout=1200, cost=5 * L))
+        J.append(dict(name="custkey:boundarypos:L%d" % L, kind="custkey", L=L, positions="boundary", timeout=1200 if L < 200 else 4000, cost=5 * L))
     for m in ((1, 2) if tier == "quick" else (1, 2, 3)):
         J.append(dict(name="parse:anyframe:blocks%d" % m, kind="anyframe", m=m, timeout=1500, cost=400 * m))
     J.append(dict(name="padding-formula", kind="padformula", timeout=120))
